@@ -350,6 +350,25 @@ def split_rule(ctx, body, paths, al):
         av = unwrap_some(p.env.get(al)) if al is not None else None
         if av is None:
             continue
+        if sep_found(p) is False:
+            # `rest = &bytes[bytes.len()..]` when there is no separator: a search in that (empty) text finds nothing, so a path on which it
+            # "found" the start of an argument cannot be taken
+            def empty_tail(t):
+                t = strip_refs(t)
+                if not (is_index_call(t) and whole_line(call_args(t)[0])):
+                    return False
+                cr = canon_range(call_args(t)[0], call_args(t)[1])
+                return cr is not None and cr[1] == LEN and (cr[0] == LEN or (length_of(cr[0]) is not None and whole_line(length_of(cr[0]))))
+            infeasible = False
+            for c in p.conds():
+                if c.term[0] == "discr" and c.fact == ("eq", 1) and is_call(strip_refs(c.term[1]), "Iterator>::position", "Iterator>::find", "Iterator>::rposition"):
+                    it_ = strip_refs(call_args(strip_refs(c.term[1]))[0])
+                    while isinstance(it_, tuple) and it_ and it_[0] in ("loc", "refmut", "ref"):
+                        it_ = strip_refs(it_[2] if it_[0] == "loc" and len(it_) > 2 else it_[1])
+                    if is_call(it_, "[T]>::iter") and empty_tail(call_args(it_)[0]):
+                        infeasible = True
+            if infeasible:
+                continue
         n += 1
         if sep_found(p) is not True:
             bada.append("an argument without a separator having been found")
